@@ -875,6 +875,10 @@ def emit_float_add_params(repo, frags):
     try:
         rsrc = open(os.path.join(repo, "float/src/root.rs")).read()
         m = re.search(r"let\s+shift\s*=\s*self\.precision\s+as\s+isize\s*\*\s*(\d+)\s*-\s*\(\(digits\s*\+\s*x\.exponent\)\s*&\s*1\)\s*-\s*digits\s*;", rsrc)
+        if not m:
+            # shape since /repo abdd8e0: the parity of digits + exponent is taken as (digits ^ exponent) & 1 so that the sum is
+            # never formed (it overflows next to isize::MAX); the lowest bit of a xor is the lowest bit of the sum
+            m = re.search(r"let\s+shift\s*=\s*self\.precision\s+as\s+isize\s*\*\s*(\d+)\s*-\s*\(\(digits\s*\^\s*x\.exponent\)\s*&\s*1\)\s*-\s*digits\s*;", rsrc)
         if m:
             put("sqrt_shift_gen", "Definition sqrt_shift_gen (p digits e : Z) : Z := p * %s - ((digits + e) mod 2) - digits." % m.group(1))
         else:
@@ -930,8 +934,12 @@ def emit_float_div_params(repo, frags):
             put("div_shrink_cond_gen", "Definition div_shrink_cond_gen (lhs_zero : bool) (ub lb p : Z) : bool := negb lhs_zero && (ub %s? lb + p)." % m.group(1))
             put("div_shrink_prec_gen", "Definition div_shrink_prec_gen (rd p : Z) : Z := rd + p.")
         else:
-            fail("div_shrink_cond_gen", "pre-shrinking of Context::div has another shape")
-            fail("div_shrink_prec_gen", "pre-shrinking of Context::div has another shape")
+            why = "pre-shrinking of Context::div has another shape"
+            if "digits_ub" not in body:
+                why = ("retired: Context::div no longer shrinks an over-long dividend (repair da565f6 divides by rhs * B^shift "
+                       "instead); the frozen copy describes the code before the repair and is used only by the pre-repair theorems")
+            fail("div_shrink_cond_gen", why)
+            fail("div_shrink_prec_gen", why)
         body = fn_body(src, r"fn\s+repr_div\s*<[^{]*")
         m1 = re.search(r"let\s+shift\s*=\s*ddigits\s*\+\s*self\.precision\s*-\s*rdigits\s*;", body)
         m2 = re.search(r"let\s+ndigits\s*=\s*digit_len::<B>\(&q\)\s*\+\s*ddigits\s*;\s*if\s+ndigits\s*([<>]=?)\s*ddigits\s*\+\s*self\.precision\s*\{", body)
@@ -1091,7 +1099,8 @@ def emit_conv_params(repo, frags):
         try:
             body = fn_body(fsrc, r"fn\s+into_%s_internal\s*\(self\)[^{]*" % t)
             grab(nm, body, [
-                r"let\s+top_bit\s*=\s*self\.exponent\s*\+\s*self\.significand\.bit_len\(\)\s+as\s+isize\s*;",
+                # plain `+` before /repo abdd8e0, saturating_add since (same meaning on Z: the saturated value is "too large")
+                r"let\s+top_bit\s*=\s*self\s*\.\s*exponent\s*(?:\+\s*self\.significand\.bit_len\(\)\s+as\s+isize|\.\s*saturating_add\(\s*self\.significand\.bit_len\(\)\s+as\s+isize\s*\))\s*;",
                 r"if\s+top_bit\s*>\s*%s\s*\{" % N,
                 r"else\s+if\s+self\.exponent\s*<\s*%s\s*-\s*%s\s*\{" % (N, N),
                 r"match\s+%s::encode\(man\d+\s*,\s*self\.exponent\s+as\s+i16\)\s*\{\s*Exact\(v\)\s*=>\s*Exact\(v\)\s*," % t,
